@@ -43,21 +43,21 @@ LOADER = "offset cursor advanced by header-derived amounts / fixed record sizes 
 RULES["C02"] = [
   # ---- LOAD-specific, genuine (truncated / corrupted files)
   ("layer::Layer::from_clipboard_data|", "known", "clipboard payload shorter than the 17-byte header or than width*height*14 cell bytes: no length check at all (data[0], data[1..5] .. data[13..17], per-cell data[0..13])"),
-  ("IcyDraw as formats::OutputFormat>::load_buffer|S5|", "known", "layer role PastePreview / PasteImage in a LAYER chunk reaches todo!()"),
-  ("IcyDraw as formats::OutputFormat>::load_buffer|S2|index(&(decode(", "known", "decoded zTXt chunk shorter than the fields read from it (ICED header, LAYER_n record, per-cell records): bytes[o], bytes[o..o+2/4/8] unchecked"),
+  ("IcyDraw as formats::OutputFormat>::load_buffer|S5|", "reviewed", "the todo!() arms are for Role::PastePreview / Role::PasteImage in the continuation-chunk match; a layer created by this loader only ever gets Role::Image (role byte 1) or Role::Normal, so they are unreachable"),
+  ("as Ok).0, RangeFrom{o}) #lower", "reviewed", "FONT_n chunk: o is the size returned by read_utf8_encoded_string, whose own slice data[4..4 + len] has already succeeded on the same bytes, so o <= bytes.len()"),
+  ("IcyDraw as formats::OutputFormat>::load_buffer|S2|index(&(decode(", "known", "decoded zTXt chunk shorter than the fields read from it: the LAYER_n record (title, role, mode, colour, flags, offsets, sizes; image layers: four more u32) and the per-cell records of LAYER_n~k continuation chunks are read with bytes[o] / bytes[o..o+2/4/8] and no length check; the short-cell check `o + 3 > len` is one byte too small"),
   ("IcyDraw as formats::OutputFormat>::load_buffer|S2|index_mut(&result.layers", "known", "LAYER_n~k continuation chunk naming a layer index that does not exist: result.layers[layer_num]"),
-  ("IcyDraw as formats::OutputFormat>::load_buffer|S2|index_mut(&*index_mut(&result.layers", "known", "image layer chunk: sixels[0] on a layer that has no sixel"),
+  ("IcyDraw as formats::OutputFormat>::load_buffer|S2|index_mut(&*index_mut(&result.layers", "reviewed", "continuation chunk of an image layer: a layer has Role::Image only if it was created by the role == 1 branch of this loader, which pushes exactly one Sixel before storing the layer"),
   ("IcyDraw as formats::OutputFormat>::load_buffer|S2|index(&*data, RangeFrom{len})", "reviewed", "len is the number of bytes the streaming PNG decoder reports as consumed from data (<= data.len())"),
   ("formats::icy_draw::read_utf8_encoded_string|", "known", "string length prefix larger than the rest of the chunk (or chunk shorter than 4 bytes): data[0..4], data[4..4+size]"),
   ("TundraDraw as formats::OutputFormat>::load_buffer|S1|bounds(len(data), o)", "known", "Tundra record truncated after its command byte: data[o] read after o += 1 / o += 4 without re-checking (e.g. '\\x18TUNDRA24\\x02')"),
   ("formats::tundra::to_u32|", "known", "Tundra colour / position record with fewer than 4 bytes left: to_u32(&data[o..]) reads bytes[0..=3]"),
   ("XBin as formats::OutputFormat>::load_buffer|S2|index(&*data, Range{o, (o + 48)})", "known", "XBIN header with the palette flag and fewer than 48 bytes after it"),
   ("XBin as formats::OutputFormat>::load_buffer|S2|index(&*data, Range{o, (o + ((font_size", "known", "XBIN header with the font flag and fewer than font_size*256 bytes after it"),
-  ("XBin as formats::OutputFormat>::load_buffer|S2|index(&*data, RangeFrom{o})", "known", "XBIN palette/font blocks declared but absent: o advanced past the end before &data[o..]"),
   ("formats::xbinary::read_data_compressed|S1|bounds(len(bytes), o)", "known", "compressed XBin run header at the last byte: bytes[o] read right after o += 1 in the Char/Attr/Full arms"),
-  ("IceDraw as formats::OutputFormat>::load_buffer|S2|index(&*data, Range{o, (o + 48)})", "known", "IDF file whose palette block (48 bytes after the font) is missing"),
+  ("IceDraw as formats::OutputFormat>::load_buffer|S2|index(&*data, Range{o, (o + 48)})", "reviewed", "len >= header + 4096 + 48 is checked first; the cell loop runs while o + 1 < data_size (= len - 4096 - 48) and advances by 2 (or, behind `o + 3 < data_size`, by 4), so it ends with o <= data_size; the font slice takes 4096 more: o + 48 <= len"),
   ("load_buffer|S4|unwrap(from_bytes('', &*", "reviewed", "BitFont::from_bytes on an embedded font constant (include_bytes! of a PSF/raw font shipped with the crate): the bytes are a valid font, so the Result is Ok"),
-  ("TundraDraw as formats::OutputFormat>::load_buffer|S2|index(&*data, RangeFrom{o})", "known", "Tundra position record (cmd 1) truncated: o += 1 / o += 4 and then &data[o..] with o past the end (e.g. '\\x18TUNDRA24\\x01' + fewer than 8 bytes)"),
+  ("TundraDraw as formats::OutputFormat>::load_buffer|S2|index(&*data, RangeFrom{o})", "reviewed", "o <= len at both slices: the first follows `o < len; o += 1`, the second follows to_u32(&data[o..]) reading bytes[3] of that slice (o + 4 <= len, else it panics there: known finding tundra::to_u32) and `o += 4`"),
   ("palette_handling::Palette::load_palette|S5|", "known", "PaletteFormat::Ase reaches todo!()"),
   ("tdf_font::TheDrawFont::from_tdf_bytes|", "known", "TDF file truncated inside a font header / glyph table / glyph: " + LOADER),
   ("sauce_mod::SauceString::<LEN, EMPTY>::read|", "reviewed", "read is only called from SauceData::extract on &data[o..] with o = len-128 + the fixed field offsets (record fields sum to 128 and len >= 128 is checked first), and on 64-byte comment lines inside the comment block whose start is checked by the signed guard"),
@@ -76,15 +76,19 @@ RULES["C07"] = [
   ("IcyDraw::to_bytes|trunc|usize as u16|", "reviewed", "the format stores font pages in 16 bits; the property quantifies over font slots 0..=300, which fit (a font page above 65535 would be a format limitation, not a cell-level loss inside the quantifier)"),
 ]
 
-MARGINS = ("DECSTBM / DECCARA-style margin setters store `Pn - 1` unvalidated (CSI 0;0 r gives top = bottom = -1, CSI 1;9999 r a bottom below the screen); "
-           "with origin mode (CSI ?6h) every row computed from get_first_editable_line / get_last_editable_line leaves the visible rows")
+DEAD_ORIGIN = ("only reachable with OriginMode::WithinMargins, which nothing in the crate ever stores (the DECOM set arm is commented out; rule R-ORIGIN "
+               "re-checks this on every run and fails if a store of WithinMargins appears)")
 ABS00 = "sets the cursor to the absolute buffer position (0,0) while scrollback rows remain (first visible row > 0): the cursor is above the screen"
 RULES["C09"] = [
   # ---- genuine leaks (the property's own anchors name them; each reproduced by reading the path)
-  ("limit_caret_pos|row-lo|", "known", MARGINS + " -- limit_caret_pos clamps into [first editable, max(last editable - 1, first editable)], which is negative for top = bottom = -1"),
-  ("set_top_and_bottom_margins|row-lo|", "known", MARGINS + " -- caret.pos = upper_left_position() right after storing the margins"),
-  ("change_scrolling_region|row-lo|", "known", MARGINS + " -- caret.pos = upper_left_position() with margins left by an earlier CSI r"),
-  ("check_scrolling_on_caret_down|row-lo|", "known", MARGINS + " -- pos.y > last editable line (= -1) then pos.y -= 1"),
+  ("limit_caret_pos|row-lo|", "reviewed", "the failing path is the WithinMargins arm: " + DEAD_ORIGIN),
+  #
+  ("set_top_and_bottom_margins|row-lo|", "reviewed", "upper_left_position() returns a margin-derived row " + DEAD_ORIGIN + "; otherwise it returns the first visible line"),
+  #
+  ("change_scrolling_region|row-lo|", "reviewed", "upper_left_position() returns a margin-derived row " + DEAD_ORIGIN + "; otherwise it returns the first visible line"),
+  #
+  ("check_scrolling_on_caret_down|row-lo|", "reviewed", "private helper with two callers (Caret::lf, Caret::index), both of which increment the row immediately before the call: the row is >= 1 when it is decremented here"),
+  #
   ("Caret::ff|store-y|default()", "known", "form feed: " + ABS00 + " (Caret::ff clears the layer but the buffer keeps its height)"),
   ("caret::Caret::reset|store-y|default()", "known", "RIS / DECSTR: " + ABS00),
   ("ctrla::Parser as parsers::BufferParser>::print_char|store-y|default()", "known", "Ctrl-A ' (home): " + ABS00),
@@ -92,7 +96,7 @@ RULES["C09"] = [
   ("restore_cursor_position|col-lo|", "reviewed", "saved_pos.x is a copy of an earlier in-range column (or the initial 0); the width only changes through CSI 8 t, which the property's precondition excludes"),
   ("restore_cursor_position|store-y|", "known", "CSI u restores a row saved before the scrollback grew (or under other margins) without limit_caret_pos"),
   ("print_char|store-y|clone(&(*self.saved_cursor_opt", "known", "ESC 8 (DECRC) restores a whole Caret saved before the scrollback grew without limit_caret_pos"),
-  ("{closure#4}|col|after next_tab_stop", "known", "CSI Pn I (CVT / CHT): next_tab_stop returns get_width() past the last stop and the column is stored unclamped (x == width)"),
+  ("{closure#4}|col|after next_tab_stop", "known", "CSI Pn Y (CVT): next_tab_stop returns get_width() past the last stop and the column is stored unclamped (x == width); confirmed: ESC[99Y leaves x = 80 on an 80-column screen"),
   ("avatar::Parser as parsers::BufferParser>::print_char|col|store pos.x = min(79", "known", "Avatar ^V^F (cursor right) clamps to column 79 whatever the terminal width (screens narrower than 80 columns)"),
   ("avatar::Parser as parsers::BufferParser>::print_char|col|store pos.y = (ch as i32)", "known", "Avatar ^V^H row col (goto) stores both coordinates straight from the stream"),
   ("avatar::Parser as parsers::BufferParser>::print_char|store-y|(ch as i32)", "known", "Avatar ^V^H row col (goto) stores the row straight from the stream"),
@@ -185,7 +189,7 @@ RULES["C03"] = [
   ("print_char|MAG|for_each(Range{0, num}, {closure#1}", "known", "CSI Pn S (SU): (0..num).for_each(scroll_up) with num straight from parsed_numbers (ESC[2147483647S)"),
   ("print_char|MAG|for_each(Range{0, num}, {closure#2}", "known", "CSI Pn T (SD): (0..num).for_each(scroll_down) with num straight from parsed_numbers"),
   ("print_char|MAG|for_each(Range{0, num}, {closure#3}", "known", "CSI Pn b (REP): (0..num).for_each(print_char) with num straight from parsed_numbers (ESC[2147483647b)"),
-  ("print_char|MAG|for_each(Range{0, num}, {closure#4}", "known", "CSI Pn I (CHT/CVT): (0..num).for_each(next_tab_stop) with num straight from parsed_numbers"),
+  ("print_char|MAG|for_each(Range{0, num}, {closure#4}", "known", "CSI Pn Y (CVT): (0..num).for_each(next_tab_stop) with num straight from parsed_numbers"),
   ("print_char|MAG|for_each(Range{0, num}, {closure#5}", "known", "CSI Pn Z (CBT): (0..num).for_each(prev_tab_stop) with num straight from parsed_numbers"),
   ("print_char|MAG|into_iter(Range{0, *(first(&*deref(&*self.parsed_numbers)) as Some).0})", "known", "CSI Pn @ / P / L (ICH, DCH, IL): `for _ in 0..*number` with the parameter unclamped"),
   ("ansi_commands::Parser::scroll_left|MAG|", "known", "CSI Pn SP @ (SL): (0..num).for_each(scroll_left) unclamped"),
